@@ -76,8 +76,16 @@ func runC04(t *kernel.Tape, opt core.Opts) *core.Outcome {
 	}
 	p := Generate(t, g)
 	var faults []lnode
-	if variant > 1 && t.PlanBool(35) {
+	if variant > 2 && t.PlanBool(35) {
 		faults = injectFaults(t, p, []int{0, 0, 1, 2}, false)
+	}
+	// static output types: some nodes and nested graphs are typed `any` (same values); variant 2
+	// lets such outputs take part in fan-ins (reported separately, known finding)
+	nAny := 0
+	if variant == 2 {
+		nAny = decorateAnyTypes(t, p, 40, true)
+	} else if variant > 2 && t.PlanBool(40) {
+		nAny = decorateAnyTypes(t, p, 25, false)
 	}
 	in := M{"in": fmt.Sprintf("x%d", t.Plan(3))}
 	order := []int{PInvoke, PStream, PCollect, PTransform}
@@ -108,10 +116,20 @@ func runC04(t *kernel.Tape, opt core.Opts) *core.Outcome {
 	env := NewEnv(s)
 	b := &builder{env: env, top: p}
 	r, err := b.Compile(context.Background(), p)
+	if err != nil && nAny > 0 {
+		// the library may refuse a combination of static types at build time: the plan then runs
+		// with its ordinary types
+		o.Stat("any_types_refused_at_build", 1)
+		o.Stat("any_refused: "+refusalKind(err.Error()), 1)
+		clearAnyTypes(p)
+		nAny = 0
+		r, err = b.Compile(context.Background(), p)
+	}
 	if err != nil {
 		o.Infra = "generated plan does not compile: " + err.Error() + " :: " + o.Sample
 		return o
 	}
+	o.Stat("any_typed_outputs", nAny)
 	results := make([]*CallResult, 4)
 	calls := make([]*Call, 4)
 	s.Go("caller0", func() {
@@ -140,6 +158,7 @@ func runC04(t *kernel.Tape, opt core.Opts) *core.Outcome {
 			midStream = true
 		}
 	}
+	anyFan := false
 	classes := make([]string, 4)
 	for i, res := range results {
 		c := calls[i]
@@ -165,6 +184,18 @@ func runC04(t *kernel.Tape, opt core.Opts) *core.Outcome {
 			}
 		}
 		o.Stat("probe.missing_key_plan", 1)
+	case variant == 2 && nAny > 0 && mr.Err == ErrNone && anyFanInFailure(results, order):
+		// fan-in of a statically any-typed output: Invoke merges by the values' dynamic type, the
+		// streaming paradigms compare static chunk types and fail
+		anyFan = true
+		for i, res := range results {
+			if order[i] != PInvoke && isAnyFanInErr(res.Err) {
+				o.Violate("C04/any-typed-fan-in-fails-in-stream-paradigms-only:"+paradigmNames[order[i]], fmt.Sprintf("a fan-in receives a value whose static type is any; Invoke returns %q, %s fails: %s", Canon(mr.Out), paradigmNames[order[i]], firstLine(lastLines(res.Err.Error()))))
+				continue
+			}
+			checkAgainstModel(o, "C04", p, env, calls[i], res, mr, execsComparable(p, mr))
+		}
+		o.Stat("probe.any_fan_in_plan", 1)
 	default:
 		for i, res := range results {
 			c := calls[i]
@@ -185,7 +216,7 @@ func runC04(t *kernel.Tape, opt core.Opts) *core.Outcome {
 		if a.Panic != nil || bb.Panic != nil || (midStream && mr.Err == ErrNode) || len(mr.AltErr) > 0 {
 			continue
 		}
-		if variant <= 1 && (mr.Err == ErrMerge || mr.Err == ErrMissingKey) {
+		if variant <= 1 && (mr.Err == ErrMerge || mr.Err == ErrMissingKey) || anyFan {
 			continue // reported above under its own class
 		}
 		if (a.Err == nil) != (bb.Err == nil) {
@@ -204,6 +235,48 @@ func runC04(t *kernel.Tape, opt core.Opts) *core.Outcome {
 	return o
 }
 
+// refusalKind strips node names from a build error.
+func refusalKind(s string) string {
+	s = firstLine(s)
+	for _, cut := range []string{"mismatch", "type["} {
+		if i := strings.Index(s, cut); i >= 0 {
+			s = s[:i+len(cut)]
+			break
+		}
+	}
+	if len(s) > 90 {
+		s = s[len(s)-90:]
+	}
+	return s
+}
+
+func isAnyFanInErr(err error) bool {
+	return err != nil && (strings.Contains(err.Error(), "(mergeStream) chunk type mismatch") || strings.Contains(err.Error(), "(mergeValues | stream type) unsupported chunk type"))
+}
+
+// anyFanInFailure: Invoke succeeded and at least one streaming paradigm failed in the merge of
+// statically differently typed streams.
+func anyFanInFailure(results []*CallResult, order []int) bool {
+	inv, str := false, false
+	for i, r := range results {
+		if order[i] == PInvoke && r.Err == nil && r.Panic == nil {
+			inv = true
+		}
+		if order[i] != PInvoke && isAnyFanInErr(r.Err) {
+			str = true
+		}
+	}
+	return inv && str
+}
+
+// lastLines: the message of a run error without its leading tag line.
+func lastLines(s string) string {
+	if i := strings.Index(s, "\n"); i >= 0 && i+1 < len(s) {
+		return s[i+1:]
+	}
+	return s
+}
+
 // hasLazy: a plan with lazily reading transforms (their inputs may stay unknown in
 // non-consumed positions; call counts are still compared).
 func hasLazy(p *Plan) bool { return false }
@@ -218,6 +291,7 @@ func runC13(t *kernel.Tape, opt core.Opts) *core.Outcome {
 		g.ForceLoop = true
 	}
 	p := Generate(t, g)
+	maybeAnyTypes(t, p)
 	var faults []lnode
 	if scenario < 6 {
 		faults = injectFaults(t, p, []int{0, 1, 0, 1, 2}, true)
